@@ -616,6 +616,40 @@ func genC12(kind string) func(r *core.Rng) any {
 						x.DashOff = core.PickF(r, []float64{0, 0, 1, -1.5, r.Range(-6, 6)})
 					}
 				}
+				if kind == "nearsim" && x.Img == nil {
+					if x.Stroke == nil {
+						x.Stroke = []int{r.Intn(256), r.Intn(256), r.Intn(256), 255}
+						x.Cap = r.Intn(3)
+					}
+					x.Width = math.Max(0.1*x.Size, 0.4) // wide enough for the anisotropy of the outline to show
+					x.JoinX = core.PickI(r, []int{0, 1, 2})
+					x.Dashes, x.DashOff = nil, 0
+				}
+				if kind == "nearsim" {
+					// views that look like similarities to a careless test: a non-uniform scale followed by a
+					// rotation of an odd multiple of 45 degrees (rows of equal length, columns orthogonal), its
+					// transpose (columns of equal length, rows orthogonal), shears that keep one of the two
+					// conditions; and true similarities among them
+					sx, sy := r.Range(0.5, 2), r.Range(0.5, 2)
+					if math.Abs(sx-sy) < 0.2 {
+						sy = sx * 1.6
+					}
+					rot45 := affR(45 + 90*float64(r.Intn(4)))
+					var m aff
+					switch r.Intn(5) {
+					case 0:
+						m = rot45.mul(affS(sx, sy))
+					case 1:
+						m = affS(sx, sy).mul(rot45)
+					case 2:
+						m = aff{sx, sx * 0.7, 0, 0, sx, 0} // shear with equal diagonal
+					case 3:
+						m = affR(r.Range(-180, 180)).mul(affS(sx, -sx)) // a reflection: a similarity
+					default:
+						m = affR(r.Range(-180, 180)).mul(affS(sx, sx))
+					}
+					x.View = m[:]
+				}
 				if kind == "similar" && x.View != nil {
 					// similarity views keep strokes native
 					s := r.Range(0.5, 2)
@@ -2064,6 +2098,7 @@ func init() {
 			{Name: "dash", Quick: 300, Thorough: 8000, Gen: genC12("dash")},
 			{Name: "ps", Quick: 300, Thorough: 8000, Gen: genC12("ps")},
 			{Name: "state", Quick: 800, Thorough: 10000, Gen: genC12State},
+			{Name: "nearsim", Quick: 400, Thorough: 8000, Gen: genC12("nearsim"), Note: "views that pass a one-sided similarity test (scale then rotation by 45 degrees and its transpose, shears with equal diagonal) next to true similarities and reflections"},
 			{Name: "state-image", Quick: 500, Thorough: 10000, Gen: genC12StateImage, Note: "images between draws whose fills alternate between translucent and opaque"},
 			{Name: "gradients", Quick: 500, Thorough: 10000, Gen: genC12("gradients"), Note: "linear gradients of 2-5 stops, first stop after 0 / last stop before 1: the colour ramp of the SVG stops and of the PDF shading function is compared at 11 positions"},
 			{Name: "defaults", Quick: 500, Thorough: 10000, Gen: genC12("defaults"), Note: "paints and widths that are defaults of the output formats (opaque black and white, width 1), filled and stroked, on shapes where the fill rules differ"},
